@@ -1344,7 +1344,7 @@ func c09HangHandler(sub *engine.Sub, caseJSON string, limit time.Duration) {
 
 func C09() *engine.Check {
 	engine.HangHandler = c09HangHandler
-	subs := []*engine.Sub{c09ShortSub(), c09MutSub(), c09SignedSub(), c09EnvSub(), c09MatchSub(), c09GlobSub(), c09ManyStmtSub(), c09MultiSub(), c09ReencSub(), c09CmdSub(), c09ErrTextSub(), c09NestSub(), c09AuthSub(), c09StickySub(), c09ScaleSub(), c09ConcSub(), concRaceSub("C09")}
+	subs := []*engine.Sub{c09ShortSub(), c09MutSub(), c09SignedSub(), c09EnvSub(), c09MatchSub(), c09GlobSub(), c09ManyStmtSub(), c09MultiSub(), c09ReencSub(), c09CmdSub(), c09ErrTextSub(), c09NestSub(), c09AuthSub(), c09OpNameSub(), c09StickySub(), c09ScaleSub(), c09ConcSub(), concRaceSub("C09")}
 	for _, s := range subs {
 		if s.Name == "scaling-families-in-isolated-worker" {
 			s.HangLimit = 20 * time.Minute // its inputs run in worker processes with their own deadlines and re-runs
